@@ -30,6 +30,13 @@ theorem IENAQ_unpack_state_independent (t u : QState) (buf : Bytes)
       intro _
       rfl
 
+example :
+    let a : QState := { QState.fresh with parameters := [⟨1, [0xAA, 0xBB, 0xCC]⟩, ⟨3, []⟩] }
+    let t : QState := { QState.fresh with parameters := [⟨9, [1]⟩] }
+    ∃ b, (QState.pack a).2 = .ok b ∧ b.length = 28 ∧ (QState.unpack t b).2 = .ok () ∧
+      (QState.unpack t b).1.parameters = a.parameters :=
+  ⟨_, rfl, rfl, rfl, rfl⟩
+
 /-- IENA-D has no pack of its own: `IENA.pack` of the payload bytes; the only field written is `size` -/
 theorem IENAD_pack_idempotent (s : DState) : DState.pack (DState.pack s).1 = DState.pack s := by
   simp only [DState.pack, IENA_pack_idempotent]
@@ -51,6 +58,13 @@ theorem IENAD_unpack_state_independent (t u : DState) (buf : Bytes)
       intro _
       rfl
 
+/-- non-vacuity: key status 0x1A (two data words per parameter), two parameters, decoded into a used object -/
+example :
+    let t : DState := { DState.fresh with parameters := [⟨9, 9, [1]⟩] }
+    let b : Bytes := [0, 0, 0, 16, 0, 0, 0, 0, 0, 0, 26, 0, 0, 0, 0, 1, 0, 2, 0, 3, 0, 4, 0, 5, 0, 6, 0, 7, 255, 255, 222, 173]
+    (DState.unpack t b).2 = .ok () ∧ (DState.unpack t b).1.parameters = [⟨1, 2, [3, 4]⟩, ⟨5, 6, [7, 65535]⟩] :=
+  ⟨rfl, rfl⟩
+
 theorem IENAN_pack_idempotent (s : NState) : NState.pack (NState.pack s).1 = NState.pack s := by
   simp only [NState.pack, IENA_pack_idempotent]
 
@@ -68,6 +82,12 @@ theorem IENAN_unpack_state_independent (t u : NState) (buf : Bytes)
       rw [← hb2, hb]
       intro _
       rfl
+
+example :
+    let t : NState := { NState.fresh with parameters := [⟨9, [1]⟩] }
+    let b : Bytes := [0, 0, 0, 12, 0, 0, 0, 0, 0, 0, 3, 0, 0, 0, 0, 1, 0, 2, 0, 3, 0, 4, 222, 173]
+    (NState.unpack t b).2 = .ok () ∧ (NState.unpack t b).1.parameters = [⟨1, [2, 3, 4]⟩] :=
+  ⟨rfl, rfl⟩
 
 example : (QState.unpack { QState.fresh with parameters := [⟨9, [1]⟩] }
     [0, 5, 0, 10, 0, 0, 0, 0, 0, 0, 0, 0, 0, 0, 0, 1, 0, 0, 0xDE, 0xAD]).1.parameters = [⟨1, []⟩] := by decide
